@@ -396,8 +396,9 @@ class FunctionLogger:
                 return fval_orig, None
 
         else:
-            # check if the noise is heteroskedastic
-            if fsd is not None:
+            # check if the noise is heteroskedastic (observations are only
+            # merged into an existing record when the target noise is specified)
+            if fsd is not None and self.he_noise_flag:
                 # Like in PyVBMC check if the point has already been evaluated and estimate the noise with new observations
                 duplicate_flag = self.X == x
                 if np.any(duplicate_flag.all(axis=1)):
